@@ -9,7 +9,8 @@ from vpx.models import rmake
 ID = 'C04'
 LEVEL_TEXT = ('bounded symbolic execution (CrossHair/z3) of the real Make and Ninja writers '
               '(target, prerequisite, order-only sentinel, quoted automatic variable, '
-              '.bfg_find_deps line; ninja output/input/build statement) on paths with one symbolic '
+              '.bfg_find_deps line, prerequisite naming an existing source, -include line; ninja '
+              'output/input/build statement) on paths with one symbolic '
               'component over printable ASCII, in three path shapes and both roots; the written text '
               'is decoded by reference readers of GNU Make rule lines and Ninja paths; the Make '
               'reader is validated against /usr/bin/make on a systematic corpus and the set of names '
@@ -29,11 +30,12 @@ FUNCTIONS = ['bfg9000.backends.make.syntax.Writer.escape_str', 'Writer.write (Ba
 OUTSIDE = ['non-ASCII names', 'backslash in names and drive-letter forms (defined as separator / '
            'drive by bfg9000)', 'names Make cannot represent (list established at run time, see '
            'bounds)', 'file creation / staleness detection by the real tools', 'depth > 2',
-           'the include directive, rm/clean and install arguments (shell arguments: C01 k_path_arg)',
+           'rm/clean and install arguments (shell arguments: C01 k_path_arg)',
            "ninja's own depfile parser"]
 STUBS = []
 ASSUMPTIONS = ['Path suffix representation invariant (C12)', 'rninja trusted']
-MAKE_FNS = ['mt_target', 'md_prereq', 'mo_dir_sentinel', 'mr_auto_var', 'mf_find_deps']
+MAKE_FNS = ['mt_target', 'md_prereq', 'mo_dir_sentinel', 'mr_auto_var', 'mf_find_deps',
+            'ms_source_prereq', 'mi_include']
 NINJA_FNS = ['nt_output', 'ni_input', 'nb_build_line']
 CORPUS_ALPHA = list("a\\ :#%*]~$|;=()'&\t")
 
@@ -44,6 +46,12 @@ def conformance(tier):
     for pos in ('target', 'prereq'):
         a, d, bad = cf.check_rmake_rule_words(list(cf.strings(CORPUS_ALPHA, k, 1)), pos)
         res.append(('rmake.rule_words (%s) vs /usr/bin/make' % pos, a, d, bad))
+    ws = list(cf.strings(list("a\\ :#%*[]?~$|'&"), k, 1))
+    for pos in ('target', 'prereq'):
+        a, d, bad = cf.check_rmake_rule_words_existing(ws, pos)
+        res.append(('rmake.rule_words (%s, named file exists) vs /usr/bin/make' % pos, a, d, bad))
+    a, d, bad = cf.check_rmake_include(ws)
+    res.append(('rmake.include_words vs /usr/bin/make -include', a, d, bad))
     return res
 
 
@@ -115,7 +123,7 @@ def obligations(tier, kf):
                     continue
                 for n in range(1, nmax + 1):
                     if tier == 'quick' and n == 2 and (shape, rooti) != (0, 0) and \
-                            fn not in ('mt_target', 'md_prereq', 'nt_output'):
+                            fn not in ('mt_target', 'md_prereq', 'nt_output', 'ms_source_prereq'):
                         continue
                     p = dict(kf, N=n, shape=shape, rooti=rooti, excl=excl)
                     ob = Ob(fn, p, T[n], desc='%s shape#%d root#%d |c|==%d' % (fn, shape, rooti, n))
@@ -129,16 +137,19 @@ def obligations(tier, kf):
 
 
 MUTANTS = {'mt_target': ['make_target_no_colon'], 'md_prereq': ['make_dep_no_pipe'],
+           'ms_source_prereq': ['make_dep_no_bracket'], 'mi_include': ['make_include_double_escape'],
            'nt_output': ['ninja_path_no_colon'], 'mr_auto_var': ['make_qvar_unquoted']}
 
 
 def classify(ob, cex):
     c = cex['args'][0]
-    if ob.fn.startswith('m') and ob.fn != 'mr_auto_var':
+    if ob.fn.startswith('m') and ob.fn not in ('mr_auto_var', 'mi_include', 'ms_source_prereq'):
         if c.startswith('~') and ob.params.get('shape') == 1:
             return 'C04-F10'
         if '[' in c:
             return 'C04-F9'
+    if ob.fn == 'mi_include' and (':' in c or '%' in c or c.startswith('~')):
+        return 'C04-F15'
     if ob.fn == 'mr_auto_var' and "'" in c:
         return 'C04-F11'
     return None
